@@ -2,9 +2,9 @@
 from props import mmr_common as mc
 
 ID = "C05"
-GEN_TAGS = []
+GEN_TAGS = ["MmrIndexGen"]
 PROOF_TARGETS = ["proofs/MmrProofs.vo", "proofs/MmrSmall.vo", "proofs/MmrUpdates.vo", "proofs/MmrBatch.vo", "proofs/MmrHistory.vo",
-                 "proofs/MmrAppend.vo"]
+                 "proofs/MmrAppend.vo", "proofs/MmrIdxTie.vo"]
 PROPS_FILE = "props/C05.v"
 EXTRA_PROPS_FILES = ["props/C05b.v"]
 EXTRACT = "extract/ExtractMmr.vo"
@@ -16,7 +16,7 @@ RUN_TIMEOUT = {"quick": 900, "thorough": 3400}
 TRUSTED = [
     "Coq 8.16.1 kernel and its bytecode VM; no native_compute",
     "coq/lib/Word.v (count_ones, leading_zeros) as the meaning of the Rust bit intrinsics",
-    "hand-written model coq/model/Mmr.v + MmrIdxLocal.v of mmr_membership_proof.rs, mmr_accumulator.rs, shared_basic.rs, shared_advanced.rs, mmr_trait.rs, tied to the code only by the correspondence check (nothing of C05 is machine-translated yet; gen/MmrIndexGen.v of C16 is not used)",
+    "hand-written model coq/model/Mmr.v of mmr_membership_proof.rs, mmr_accumulator.rs, shared_basic.rs (calculate_new_peaks_*), mmr_trait.rs, tied to the code only by the correspondence check; its index functions (coq/model/MmrIdxLocal.v) are PROVED equal, on all u64 arguments including the panic outcome, to the functions of gen/MmrIndexGen.v (regenerated from shared_basic.rs / shared_advanced.rs on every run, with their generated side conditions) and the loops of model/MmrIndex.v around them (C05_index_functions_regenerated, proofs/MmrIdxTie.v); the loops of MmrIndex.v themselves (rll_height_loop, rll_node_rec, added_loop, auth_path_loop, peaks_loop) are hand-written and tied to the code by the C16 correspondence",
     "extraction: ExtrOcamlBasic + ExtrOcamlZBigInt, Z.pow mapped to zarith's power function, OCaml 4.13.1, zarith 1.12",
     "correspondence harness harness/src/bin/mmr.rs (shadow forest naming digests by terms; it also supplies the valid proofs of mutated leafs), oracle driver ocaml/mmr.ml, case generators tools/props/c05.py + mmr_common.py",
     "free hash: distinct terms are assumed to have distinct Tip5 evaluations and distinct 61-bit fingerprints",
@@ -27,7 +27,7 @@ ASSUMPTIONS = [
     "leaf counts < 2^63 for the update routines; verification is modelled for all u64 (index, count) pairs",
     "arithmetic overflow is modelled as a panic (checked build); a release build would wrap (only for counts >= 2^63)",
     "a peak list of 2^32 or more digests makes `len().try_into::<u32>().unwrap()` panic: `verify never panics` carries length < 2^32",
-    "proved in general: verify_iff / never panics, append returns the path, update_from_leaf_mutation, batch_update_from_leaf_mutation, batch_update_from_batch_leaf_mutation, batch_mutate_leaf_and_update_mps (exact paths and exact `modified`); still open in general (bounded vm_compute theorem up to 48 leafs + correspondence + oracle SPECDIFF only): update_from_append, batch_update_from_append, and therefore the history invariant for histories containing appends with tracked proofs",
+    "proved in general (all leaf counts < 2^63): verify_iff / never panics, append returns the path, update_from_append, batch_update_from_append (props/C05b.v), update_from_leaf_mutation, batch_update_from_leaf_mutation, batch_update_from_batch_leaf_mutation, batch_mutate_leaf_and_update_mps (exact paths and exact flag / `modified`), and the history invariant C05_history_inv for every valid history of appends, mutations and batch mutations (props/C05b.v; C05_history_inv_modulo_append_partial and the *_small_partial theorems of props/C05.v are superseded but kept)",
     "`valid proof` means: the authentication path of the specification (path ls i); C05_path_verifies shows it verifies; uniqueness of verifying paths would need collision resistance of H and is not claimed",
 ]
 RULE = ("SYNTHETIC accumulators MmrAccumulator::init(peaks, count) with hand-built valid proofs for bit-pattern counts up to 2^63-1 (2^k, 2^k-1, >= 33 trailing ones, count XOR index just below a power of two) through verify / append-update / mutate / batch-mutate / verify_batch_update; operation histories of 1..300 (quick) / ..3000 (thorough) ops mixing append/mutate/batch-mutate through every update "
